@@ -22,9 +22,9 @@ CLAIMS = {
         text=("Bit-exact Lean mirror of base64.rs (i16 arithmetic as BitVec 16): decode(encode bs) = bs and decode s = bs -> encode bs = s for ALL byte lists/strings "
               "(finite 6-bit cores by kernel-checked tables over all 256/64/65536 cases, lifted by induction), strictness corollaries (alphabet only, no padding, "
               "length != 1 mod 4), and show/parse canonicity of tokens (up to one trailing '.'), KeyText, KeyId (33 bytes), PIE, PBKW, SEAL for every back end's header "
-              "constants. Tie: exhaustive over the finite decoder core through the real FromStr, plus ~90k strings through every FromStr/Display pair and serde."),
+              "constants, also for a payload type with any encoding suffix (token_header_order: version ‖ suffix ‖ purpose). The arithmetic kernels decode_6bits / encode_6bits / decoded_len are additionally TRANSLATED FROM THE SOURCE on every run (tools/b64scan.py -> Extracted/B64Src.lean) and proved, about the translated source, to be the alphabet lookup on all 256 bytes, the alphabet on all 64 values and floor(3n/4) (vacuous, with a note in the evidence, if a kernel leaves the translator's subset). Tie: exhaustive over the finite decoder core through the real FromStr, plus ~90k strings through every FromStr/Display pair and serde, incl. a suffixed payload type."),
         note=BASE_NOTE + "Byte values 0xC0,0xC1,0xF5..0xFF cannot be fed through &str (covered by the table theorem only). serde_json's string codec is a dependency.",
-        technique="Lean 4 proof (decide +kernel tables lifted by structural induction) + exhaustive correspondence on the finite core",
+        technique="Lean 4 proof (decide +kernel tables lifted by structural induction; arithmetic kernels translated from the source and decided over their whole domain) + exhaustive correspondence on the finite core",
         design="§6 C09"),
     "C10": dict(
         text=("The header table is re-extracted from the code each run; the kernel re-decides that the 102 full headers are pairwise prefix-free and equal exactly for "
@@ -46,9 +46,9 @@ CLAIMS = {
         text=("Model of the hand-written Serialize/Deserialize visitor at serde's data model (member lists in document order, duplicates allowed). Theorems for ALL claims / member lists: "
               "claims_roundtrip, wire_form/absent_stays_absent/wire_order, ignores_unknown, order_irrelevant (any permutation, via commuting adjacent steps), agrees_with_generic "
               "(last-duplicate-wins reading, incl. the null-then-value corner), Json wrapper transparency and empty-footer error. Tie: JSON text built from generated member lists "
-              "(3 escape styles) fed to the real decoder and to serde_json::Value; encode checked for RFC 3339 and ns-exact round trip over jiff's full range."),
+              "(3 escape styles) fed to the real decoder and to serde_json::Value; encode checked for RFC 3339 and ns-exact round trip over jiff's full range. The JSON TEXT itself is modelled too (Json.lean: serde_json's compact string escaping, jiff's RFC 3339 Display, object layout) and compared with RegisteredClaims::encode BYTE FOR BYTE on every run (claims.json), with theorems wire_is_compact_object, wire_strings_decodable (unescape ∘ escape = id), wire_strings_no_control, wire_timestamps_rfc3339_shape."),
         note=BASE_NOTE + "serde_json's tokenizer and jiff's RFC 3339 codec are dependencies: a string value carries what jiff's parser makes of it, supplied by the implementation and re-checked at exec time.",
-        technique="Lean 4 proof (induction over member lists, permutation induction) + differential correspondence incl. generic-parser oracle",
+        technique="Lean 4 proof (induction over member lists, permutation induction; escape codec round trip) + differential correspondence incl. byte-exact JSON text and generic-parser oracle",
         design="§6 C14"),
     "C01": dict(
         text=("One skeleton for local tokens (6 back ends) and one for public tokens, parametric in a scheme; local_roundtrip holds for every scheme with the length/inverse laws and the concrete "
@@ -125,7 +125,7 @@ CLAIMS = {
         design="§6 C04"),
     "C16": dict(
         text=("Randomised operations of the getrandom-based back ends written against an explicit random source (list of answers, each bytes or failure). Theorems: fail-closed for encrypt, PIE, PBKW (both draw indices), key sealing, key generation and "
-              "rejection sampling after any number of rejected candidates; the drawn bytes ARE the embedded nonce/salt/seed (token_nonce_is_draw, pie_nonce_is_draw, pie_draws_distinct, pbkw_salt_nonce_are_draws, *_is_draw). "
+              "rejection sampling after any number of rejected candidates; the drawn bytes ARE the embedded nonce/salt/seed (token_nonce_is_draw, pie_nonce_is_draw, pie_draws_distinct, pbkw_salt_nonce_are_draws, *_is_draw); the request-level source refines a byte stream with failure points and requests are chunking independent (draw_is_stream_take, requests_are_chunking_independent). "
               "Tie: harness rebuilt with the getrandom custom backend; outputs for scripted answers compared bit-for-bit with the model for v1-v4, failure injected at every draw index; 10^4..10^5 consecutive operations per kind on all six back ends checked for distinct nonces."),
         note=BASE_NOTE + "PARTIAL: aws-lc, libsodium and rsa's OsRng cannot be failed from outside (success path and freshness only); distinctness of OS randomness is statistical; v1/v2 synthetic nonces reduce to a MAC collision (stated).",
         technique="Lean 4 proof over an explicit random-source oracle + scripted-RNG correspondence with failure injection at every draw",
